@@ -566,7 +566,11 @@ pub fn deviations(base: &Case, max_wits: usize) -> Vec<Dev<Case>> {
             dev!(format!("wits.redeemers={name}"), "rdm", move |c: &mut Case| c.tx.wits.redeemers = p.clone());
         }
         if era == Era::Conway {
-            dev!("wits.redeemers.form=map", "rdmform", |c: &mut Case| c.tx.wits.redeemers_map = true);
+            if base.tx.wits.redeemers_map {
+                dev!("wits.redeemers.form=list", "rdmform", |c: &mut Case| c.tx.wits.redeemers_map = false);
+            } else {
+                dev!("wits.redeemers.form=map", "rdmform", |c: &mut Case| c.tx.wits.redeemers_map = true);
+            }
         }
         // execution budgets: the SUM over the redeemers is placed below / at / above the maximum
         let n = params::numbers(era);
